@@ -260,6 +260,11 @@ func init() {
 		ln := a[0].(*Term)
 		return sliceV{abs: &absSlice{length: ln, capa: ln, elemT: types.Typ[types.Int32]}}, false
 	}
+	V["verifAbstractSlice"] = func(ex *Exec, th *Thread, fn *ssa.Function, a []Value) (Value, bool) {
+		ln := a[0].(*Term)
+		et := fn.Signature.Results().At(0).Type().Underlying().(*types.Slice).Elem()
+		return sliceV{abs: &absSlice{length: ln, capa: ln, elemT: et}}, false
+	}
 	V["verifSameObject"] = func(ex *Exec, th *Thread, fn *ssa.Function, a []Value) (Value, bool) {
 		x, y := a[0].(ifaceV), a[1].(ifaceV)
 		px, ok1 := x.v.(Ptr)
